@@ -420,9 +420,9 @@ fn run_do_find<const N: usize>(canary: bool) {
                 let mut i = 0;
                 while i < DF_MAX { if i < want_calls { assert!(DF_SEEN[i] == names[i]); } i += 1; }
                 assert!((code != 0) == failed);
-                kani::cover!(want_calls == 3 && failed && DF_CODES[2] == 0);
-                kani::cover!(want_calls == 1 && DF_N == 3);
-                kani::cover!(want_calls == 3 && !failed);
+                kani::cover!(want_calls == N && failed && DF_CODES[N - 1] == 0);
+                kani::cover!(want_calls == 1 && N >= 2);
+                kani::cover!(want_calls == N && !failed);
             }
             Err(e) => { std::mem::forget(e); assert!(false); }
         }
